@@ -48,10 +48,12 @@ type FmtCase struct {
 	FI *FI      `json:"fi,omitempty"` // nil: no file header
 }
 
-func (c FmtCase) String() string { return fmt.Sprintf("L=%q R=%q n=%d", c.L, c.R, c.N) }
+func (c FmtCase) String() string {
+	return fmt.Sprintf("L=%s R=%s n=%d", showLines(c.L), showLines(c.R), c.N)
+}
 
 func (c FmtCase) diff() *mdiff.Diff {
-	d := mdiff.New(slices.Clone(c.L), slices.Clone(c.R))
+	d := mdiff.New(expandLines(c.L), expandLines(c.R))
 	if c.N >= 0 {
 		d.AddContext(c.N).Unify()
 	}
@@ -323,6 +325,7 @@ func checkMeaning(cs []*mdiff.Chunk, fi *mdiff.FileInfo, L, R []string) string {
 }
 
 func runC14(c FmtCase, o *vk.Obs) string {
+	c.L, c.R = expandLines(c.L), expandLines(c.R)
 	d := c.diff()
 	fi := c.FI.info()
 	var st fmtStats
